@@ -121,6 +121,7 @@ class Interface:
     custom: str = None        # text of #[sv::custom(...)] args, e.g. "msg=Empty, query=Empty"
     attrs: tuple = ()         # other attributes on the trait (sv::msg_attr..., foreign)
     extra_items: tuple = ()   # raw trait items (helper methods, consts)
+    mid_items: tuple = ()     # ((position, raw item text), ...): items written before the method at that position
     generics: str = ""        # text after the trait name (C18: generics on interface)
     no_error: bool = False
     messages_as: str = None   # `as X` part in sv::messages
@@ -148,6 +149,7 @@ class Contract:
     attr_order: tuple = None  # explicit order of all attribute lines (C14), indices into default order
     new: str = "pub const fn new() -> Self { Self }"
     extra_items: tuple = ()   # raw impl items (helpers)
+    mid_items: tuple = ()     # ((position, raw item text), ...): items written before the method at that position
     entry_points: str = None  # None = no entry_points macro; "" = #[entry_points]; "generics<..>"
     concrete: tuple = ()      # concrete types used for generics when instantiating
     fields: str = None        # struct body for generic contracts
@@ -283,7 +285,8 @@ def render_interface(i, style="stub", fw="sylvia"):
         items.append("type QueryC: CustomQuery;")
     for (n, b) in i.assoc:
         items.append("type %s%s;" % (n, (": " + b) if b else ""))
-    for m in i.methods:
+    for k, m in enumerate(i.methods):
+        items.extend(t for (pos, t) in i.mid_items if pos == k)
         items.append(render_method(m, "iface", i.name, style, iface=i, decl_only=True))
     items.extend(i.extra_items)
     item = "pub trait %s%s {\n    %s\n}" % (i.name, i.generics, "\n    ".join(items))
@@ -365,7 +368,8 @@ def render_contract_impl(c, style="stub"):
     items = []
     if c.new:
         items.append(c.new)
-    for m in c.methods:
+    for k, m in enumerate(c.methods):
+        items.extend(t for (pos, t) in c.mid_items if pos == k)
         items.append(render_method(m, "contract", c.name, style, cm, cq))
     items.extend(c.extra_items)
     item = "impl%s %s%s {\n    %s\n}" % (gens, contract_self_ty(c), where, "\n\n    ".join(items))
